@@ -74,10 +74,13 @@ let run () = iter_lines (fun line ->
          end
        end
      | _ -> report "BAD" "regex line" line)
-  | 'z', [e; res; as_written] ->
+  | 'z', [e; res; as_written; cleaned; cleaned_ok] ->
     (* the preparation of a regex expression, character for character (what does not compile afterwards is not observable) *)
     let et = text_of_hex e in
-    let m = regex_prepare et in
+    (* RegexRule::make tries the cleaned expression first; the verdict of the crate comes from the harness, whose port of the
+       clean-up is compared with the model's *)
+    if text_of_hex cleaned <> cleanup et then report "BAD" "the harness's port of the clean-up pass differs from the model's" line;
+    let m = regex_effective (fun _ -> cleaned_ok = "1") et in
     bump (if res = "err" then "prepare:does-not-compile" else if m = et then "prepare:unchanged" else "prepare:changed");
     let plain0 = List.for_all (fun c -> let c = int_of_n c in c <> 92 && c <> 123 && c <> 125 && c <> 91 && c <> 93 && c <> 40 && c <> 41 && c <> 42 && c <> 43 && c <> 63 && c <> 124) et in
     if res = "err" && plain0 then report "SPEC:C04" "a regex expression made of literal characters, `.` `^` `-` only is rejected" line;
